@@ -61,7 +61,11 @@ def run_case(seed, kind=None):
             shared = b.layer(d['layers'][-1])
             try:
                 names = [f for f in rel.ref(up_desc).fields if f != 'id']
-                swap = {'k': 'transform', 'cls': 'HistSwap', 'fields': {f: {'args': [f], 'f': 'hist.' + f} for f in names},
+                # the key fields (tables over rel.KEYS) are rotated, the other fields are wrapped symbolically
+                rot = [[[k], rel.KEYS[(j + 1) % len(rel.KEYS)]] for j, k in enumerate(rel.KEYS)]
+                swap = {'k': 'transform', 'cls': 'HistSwap',
+                        'fields': {f: ({'args': [f], 'f': 'hist.' + f, 'table': rot} if f.startswith('k') else {'args': [f], 'f': 'hist.' + f})
+                                   for f in names},
                         'params': {}, 'cargs': {}, 'defaults': {}, 'inherit': True}
                 decoy = b.layer(up_desc) >> b.layer(swap) >> shared
                 history = 'built'
